@@ -1,5 +1,5 @@
 import Reamber.Props.C07
-#print axioms Reamber.O2J.header_layout
+#print axioms Reamber.O2J.header_layout_partial
 #print axioms Reamber.O2J.channels_tie
 #print axioms Reamber.O2J.isNoteChannel_eq
 #print axioms Reamber.O2J.slotsOf_eq_spec
@@ -14,3 +14,5 @@ import Reamber.Props.C07
 #print axioms Reamber.O2J.sweep_table
 #print axioms Reamber.O2J.sweep_offsets
 #print axioms Reamber.O2J.consumeAll_integ
+#print axioms Reamber.O2J.old_sweep_counterexample
+#print axioms Reamber.O2J.old_length_counterexample
